@@ -101,6 +101,13 @@ TABLE.update({
     "c05_latch_write_set_reset_swapped.diff": ("contracts.c02", "IRBuilder.latch_write", None),
     "c09_place_entity_xy_swapped.diff": ("contracts.c02", "IRBuilder.place_entity", None),
     "c03_memory_write_enable_as_data.diff": ("contracts.c02", "IRBuilder.memory_write", None),
+    "c05_lowering_conditions_swapped.diff": ("contracts.c05b", "_lower_latch_write_inlined", None),
+    "c05_lowering_priority_inverted.diff": ("contracts.c05b", "_lower_latch_write_standard", None),
+    "c05_lowering_reset_op_from_set.diff": ("contracts.c05b", "_try_extract_inline_conditions", None),
+    "c05_lowering_different_signals_inlined.diff": ("contracts.c05b", "_try_extract_inline_conditions", None),
+    "c05_lowering_dispatch_swaps_conditions.diff": ("contracts.c05b", "MemoryLowerer._lower_latch_write", None),
+    "c05_lowering_latch_as_standard_write.diff": ("contracts.c05b", "lower_write_expr", None),
+    "c03_read_wrong_cell_type.diff": ("contracts.c05b", "lower_read_expr", None),
     "c08_preserved_shares_network_zero.diff": ("contracts.c12", "_restore_preserved_connection", None),
     "c08_preserved_routing_failure_ignored.diff": ("contracts.c12", "_restore_preserved_connection", None),
     "c08_preserved_span_doubled.diff": ("contracts.c12", "_restore_preserved_connection", None),
